@@ -7,6 +7,7 @@ import subprocess
 import time
 
 import core
+from props import lrucode
 
 PROP = dict(
     id="C11",
@@ -239,7 +240,8 @@ def selftest(ctx):
 
 
 def run(ctx):
-    ctx.stage_xlate(required_assertions=REQUIRED)
+    # the sequential LRU steps the linearizability theorems are stated over are the source's control flow (Gen/LruCode.lean, Props/C12b.lean)
+    ctx.stage_xlate(required_assertions=list(REQUIRED) + lrucode.ASSERTIONS)
     _all_lockfacts_assertions(ctx)
     ctx.stage_prove(THEOREMS)
     _exceptions(ctx)
